@@ -18,12 +18,28 @@
   `tag lx ly rx ry` is what the real `PlaneSector::new(start, sweep)` computed (hook
   `verif_hooks::plane_sector`, written into the op line by the harness generator); `bk bnx bny` is
   the bevel kind and bevel-line normal the real `sector::StyledPixelsIterator::new` computed (hook
-  `verif_bevel`); the angles themselves are not used by the model (trigonometry is not modelled).
+  `verif_bevel`); the angles themselves are not used by the model (the f32 trigonometry of the default
+  build is not modelled).
+
+  Streams of the `fixed_point` build only (the harness emits them only there; the trigonometry of that
+  build is modelled: `EG.Model.FixedReal`, `FixedTrig`, `PlaneSectorNew`; angles are raw I16F16 bits):
+
+    sector.consts
+        -> c180=<Angle::from_degrees(180.0)> c55=<..(55.0)> c305=<..(360.0 - 55.0)> c360=<..(360.0)>
+           nm=<modulus of Angle::normalize>        (the f32-derived constants of tools/tr_trig.py)
+    sector.trig raw_start raw_sweep
+        -> ps=<PlaneSector::new(start, sweep): tag,lx,ly,rx,ry | panic>
+           bv=<bevel of the styled sector: kind,nx,ny | panic> nz=<start.normalize()> ab=<start.abs()>
+           ng=<-start> ad=<start + sweep> sb=<start - sweep>          (each `panic` where the real code panics)
+    sector.fxpoints x y d raw_start raw_sweep
+        -> ps=<..> bb=<..> pts=<Sector::points()> in=<contains() bitmap> as for sector.points, the plane
+           sector COMPUTED by the model from the raw angles | panic
 -/
 import EG.Driver.Util
 import EG.Model.Sector
 import EG.Model.StyledArc
 import EG.Model.StyledSector
+import EG.Model.PlaneSectorNew
 namespace EG.Driver
 open EG
 
@@ -104,8 +120,42 @@ private def styledReport (obs : Pt → StyledObs) (tb : Rect) (d : Pt) : String 
       (od.bbox, md == mu.map (fun w => (w.1 + d, w.2)))
   s!"bb={fmtRect o.bbox} log={logText} m={mText} r2eq={b01 (m1 == m2)} px={pxText} bbd={fmtRect bbd} sh={b01 sh}"
 
+private def fmtOptInt : Option Int → String
+  | none => "panic"
+  | some v => toString v
+
+private def fmtBevel : SectorBevel → String
+  | none => "0,0,0"
+  | some (.interior, n) => s!"1,{n.x},{n.y}"
+  | some (.exterior, n) => s!"2,{n.x},{n.y}"
+
 def handleSector (stream : String) (t : Toks) : Option String :=
   match stream with
+  | "sector.consts" =>
+    some s!"c180={Generated.withAngleSpecialBits} c55={Generated.bevelExteriorBits} c305={Generated.bevelInteriorLoBits} c360={Generated.bevelInteriorHiBits} nm={Generated.normalizeModBits}"
+  | "sector.trig" =>
+    let (a, t) := t.int
+    let (b, _) := t.int
+    let psText := match Fx.planeSectorNew a b with
+      | none => "panic"
+      | some ps => fmtPlaneSector ps
+    let bvText := match Fx.styledSectorTrig a b with
+      | none => "panic"
+      | some (_, bv) => fmtBevel bv
+    some s!"ps={psText} bv={bvText} nz={fmtOptInt (Fx.normalize a)} ab={fmtOptInt (Fx.angleAbs a)} ng={fmtOptInt (Fx.neg a)} ad={fmtOptInt (Fx.add a b)} sb={fmtOptInt (Fx.sub a b)}"
+  | "sector.fxpoints" =>
+    let (tl, t) := t.pt
+    let (d, t) := t.nat
+    let (a, t) := t.int
+    let (b, _) := t.int
+    match Fx.planeSectorNew a b with
+    | none => some "panic"
+    | some ps =>
+      let s : Sector := ⟨tl, d, ps⟩
+      let ys := irange (tl.y - 2) (tl.y + d + 2)
+      let xs := irange (tl.x - 2) (tl.x + d + 2)
+      let bits := ys.flatMap (fun y => xs.map (fun x => s.contains ⟨x, y⟩))
+      some s!"ps={fmtPlaneSector ps} bb={fmtRect s.boundingBox} pts={fmtPts s.points} in={fmtBits bits}"
   | "sector.sarc" =>
     let (tl, t) := t.pt
     let (d, t) := t.nat
